@@ -77,3 +77,62 @@ pub proof fn pf_loop_kw(n: &SyntaxNode)
         n.kind_s() == SyntaxKind::LoopBreak ==> sig_leaves(n) == seq!["break"@],
         n.kind_s() == SyntaxKind::LoopContinue ==> sig_leaves(n) == seq!["continue"@],
 {}
+
+// ---- function calls: callee, then the argument list (parenthesized part, then trailing content blocks) ----
+/// PF12: a function call consists of exactly its callee and its argument list
+#[verifier::external_body]
+pub proof fn pf_func_call(n: ast::FuncCall<'_>)
+    requires n.wf(), tree_wf(n.0),
+    ensures n.0.children_s().len() == 2, n.0.children_s()[0] == n.callee_s(), n.0.children_s()[1] == n.args_s(),
+{}
+/// index one past the closing parenthesis of an argument list (its length if there is none)
+pub open spec fn after_rparen(ch: Seq<&SyntaxNode>) -> int decreases ch.len() {
+    if ch.len() == 0 { 0 } else if ch[0].kind_s() == SyntaxKind::RightParen { 1 } else { 1 + after_rparen(ch.subrange(1, ch.len() as int)) }
+}
+pub proof fn lemma_after_rparen_bounds(ch: Seq<&SyntaxNode>)
+    ensures 0 <= after_rparen(ch) <= ch.len(),
+    decreases ch.len(),
+{
+    reveal_with_fuel(after_rparen, 2);
+    if ch.len() > 0 && ch[0].kind_s() != SyntaxKind::RightParen { lemma_after_rparen_bounds(ch.subrange(1, ch.len() as int)); }
+}
+pub open spec fn has_paren_s(ch: Seq<&SyntaxNode>) -> bool { ch.len() > 0 && ch[0].kind_s() == SyntaxKind::LeftParen }
+/// the children up to and including the closing parenthesis
+pub open spec fn paren_part<'a>(ch: Seq<&'a SyntaxNode>) -> Seq<&'a SyntaxNode> { ch.subrange(0, after_rparen(ch)) }
+/// the children after the closing parenthesis (all of them when there is no parenthesized part): trailing content blocks
+pub open spec fn trailing_part<'a>(ch: Seq<&'a SyntaxNode>) -> Seq<&'a SyntaxNode> { if has_paren_s(ch) { ch.subrange(after_rparen(ch), ch.len() as int) } else { ch } }
+pub proof fn lemma_sig_concat_split(s: Seq<&SyntaxNode>, k: int)
+    requires 0 <= k <= s.len(),
+    ensures sig_concat(s) =~= sig_concat(s.subrange(0, k)) + sig_concat(s.subrange(k, s.len() as int)),
+    decreases s.len() - k,
+{
+    reveal_with_fuel(sig_concat, 2);
+    if k == s.len() {
+        assert(s.subrange(0, k) =~= s);
+        assert(s.subrange(k, s.len() as int) =~= Seq::<&SyntaxNode>::empty());
+    } else {
+        lemma_sig_concat_split(s, k + 1);
+        lemma_sig_concat_step(s, k);
+        let t = s.subrange(k, s.len() as int);
+        let t1 = s.subrange(k + 1, s.len() as int);
+        // sig_concat(t) == sig_leaves(s[k]) + sig_concat(t1)
+        lemma_sig_concat_first(t);
+        assert(t.subrange(1, t.len() as int) =~= t1);
+    }
+}
+pub proof fn lemma_sig_concat_first(s: Seq<&SyntaxNode>)
+    requires s.len() > 0,
+    ensures sig_concat(s) =~= sig_leaves(s[0]) + sig_concat(s.subrange(1, s.len() as int)),
+    decreases s.len(),
+{
+    reveal_with_fuel(sig_concat, 2);
+    if s.len() == 1 {
+        assert(s.drop_last() =~= Seq::<&SyntaxNode>::empty());
+        assert(s.subrange(1, 1) =~= Seq::<&SyntaxNode>::empty());
+    } else {
+        lemma_sig_concat_first(s.drop_last());
+        assert(s.drop_last().subrange(1, s.len() - 1) =~= s.subrange(1, s.len() as int).drop_last());
+        assert(s.subrange(1, s.len() as int).last() == s.last());
+        assert(s.drop_last()[0] == s[0]);
+    }
+}
